@@ -250,7 +250,17 @@ func (r *repeat) more(s bitStream) bool {
 		pCont = 0
 	}
 
-	cont := flipBiasedCoin(s, pCont)
+	var cont bool
+	if r.forceStop && r.count >= r.minCount {
+		// A forced stop is caused by rejected (discarded) attempts, which are absent from a pruned
+		// recording; record a coin that means "stop" whatever the continuation probability is,
+		// so that replaying the pruned bits stops here too.
+		i := s.beginGroup(coinFlipLabel, false)
+		s.drawBits(0)
+		s.endGroup(i, false)
+	} else {
+		cont = flipBiasedCoin(s, pCont)
+	}
 	if cont {
 		r.count++
 	} else {
